@@ -39,6 +39,24 @@ def worker(case: Dict[str, Any]) -> CaseResult:
         return CaseResult("inconclusive", note="generator could not produce a valid schema/document", stats={"gen_invalid": 1})
     sdl, frs, ops, names, feats, schema_ref = built
     feats = set(cw.case_features(case, feats))
+    uploads = False
+    if case.get("upload"):
+        # the documented file-upload route: a scalar called Upload becomes the bundled Upload class in arguments and input fields, and a call
+        # carrying one goes out as a multipart request
+        import re as _re
+
+        from graphql import GraphQLScalarType, build_schema
+        if "Upload" not in schema_ref.type_map:
+            customs = sorted(n for n, t in schema_ref.type_map.items() if isinstance(t, GraphQLScalarType) and n not in ("String", "Int", "Float", "Boolean", "ID"))
+            if customs:
+                pat = _re.compile(r"\b%s\b" % _re.escape(customs[0]))
+                sdl = pat.sub("Upload", sdl)
+                frs = [pat.sub("Upload", x) for x in frs]
+                ops = [pat.sub("Upload", x) for x in ops]
+                schema_ref = build_schema(sdl)
+        uploads = "Upload" in schema_ref.type_map
+        if uploads:
+            feats.add("scalar.upload")
     cfg_full = dict(case["cfg"])
     cfg_full.pop("_tracer", None)
     queries = "\n\n".join(frs + ops)
@@ -81,7 +99,7 @@ def worker(case: Dict[str, Any]) -> CaseResult:
             count("operations_with_variables")
             required = [vd.variable.name.value for vd in opnode.variable_definitions if vd.type.kind == "non_null_type"]
             for si in range(n_scripts):
-                vg = ValueGen(schema_ref, rng)
+                vg = ValueGen(schema_ref, rng, custom_scalar_values=({"Upload": lambda n: "upload-tok#%d" % n} if uploads else None))
                 tree = vg.variables(opnode, minimal=(si == 0))
                 if si == 1:  # everything supplied
                     for vd in opnode.variable_definitions:
@@ -92,7 +110,18 @@ def worker(case: Dict[str, Any]) -> CaseResult:
                 feats.update(vg.feats)
                 feats.add("arg.by_alias" if by_alias else "arg.by_name")
                 try:
-                    kwargs = python_args(pkg, cfg, opnode, tree, schema_ref, by_alias=by_alias, pmap=pmap)
+                    made_uploads: Dict[str, Any] = {}
+
+                    def as_python(scalar_name, token):
+                        if uploads and scalar_name == "Upload" and isinstance(token, str) and token.startswith("upload-tok#"):
+                            import io
+                            import sys as _sys
+                            up_cls = getattr(_sys.modules[pkg.__name__ + ".base_model"], "Upload")
+                            made_uploads[token] = up_cls(filename=token.replace("#", "_") + ".txt", content=io.BytesIO(token.encode()), content_type="text/x-vf")
+                            return made_uploads[token]
+                        return token
+
+                    kwargs = python_args(pkg, cfg, opnode, tree, schema_ref, by_alias=by_alias, pmap=pmap, transform=as_python if uploads else None)
                 except BaseException as e:  # noqa: BLE001
                     count("args_unbuildable_c06_concern")  # the input model refused a schema-valid value: C06 decides that
                     continue
@@ -115,6 +144,23 @@ def worker(case: Dict[str, Any]) -> CaseResult:
                 sent = body.get("variables")
                 if sent is None:
                     sent = {}
+                if uploads:
+                    # file positions: the request is multipart exactly when an Upload travels, `operations` has null there, one part per Upload,
+                    # each with its own file name, content type and bytes (the reference server has already put the bytes' token back in place)
+                    count("upload_calls" if made_uploads else "upload_free_calls")
+                    files = body.get("__files__") or {}
+                    if bool(made_uploads) != bool(body.get("__multipart__")):
+                        violations.append(Violation(PROP, "upload-multipart", "%s: %d Upload object(s) in the arguments, request %s multipart" % (
+                            op_name, len(made_uploads), "is" if body.get("__multipart__") else "is not"), sorted(feats), replay_case, mech="c03:upload-multipart"))
+                        continue
+                    if made_uploads:
+                        got_files = sorted((f["filename"], f["content_type"], f["content"]) for f in files.values())
+                        want_files = sorted((u.filename, u.content_type, tok.encode()) for tok, u in made_uploads.items())
+                        if got_files != want_files or not body.get("__null_positions_ok__"):
+                            violations.append(Violation(PROP, "upload-parts", "%s: parts sent %r, expected %r; null at every file position of operations: %s" % (
+                                op_name, got_files[:4], want_files[:4], body.get("__null_positions_ok__")), sorted(feats), replay_case, mech="c03:upload-parts"))
+                            continue
+                        count("upload_parts_checked", len(want_files))
                 count("variables_payloads")
                 count("variable_values", len(expected))
                 if sent != expected:
@@ -179,6 +225,10 @@ def run(tier: str, seed: int) -> int:
     n = 1500 if tier == "thorough" else 170
     name_classes = [[], [], [], [], ["names.keyword"], [], ["names.pydantic_attr"], [], ["names.leading_underscore"], ["names.soft_keyword"]]
     cases = [cw.make_case(seed, i, dirty=name_classes[i % len(name_classes)], tier=tier) for i in range(n)]
+    for i, c in enumerate(cases):
+        if i % 6 == 3:
+            c["upload"] = True
+            c["dirty"] = sorted(set(c["dirty"]) | {"schema.force_scalar"})
 
     def on_result(case, res):
         r.add(case, res)
